@@ -9,6 +9,6 @@ C2 == {"c1", "c2"}
 \* vector: one finished single-thread execution with its fault parameters and the predicted observation
 EmitHist == AllDone => PrintT(ToJson([m |-> "PongoExec", nchunks |-> NChunks, inclat |-> InclAt, hist |-> hist]))
 \* interleavings as schedules: the sequence of thread steps is reconstructed by the harness from gate order; here only the verdict
-viewNoHist == <<compiled, pc, sub, entry, ctx, failAt, failIn, wfail, buf, ibuf, sink, nwrites, res, runs>>
+viewNoHist == <<compiled, pc, sub, entry, ctx, failAt, failIn, wfail, wkind, buf, ibuf, sink, nwrites, res, runs>>
 C3 == {"c1", "c2", "cbad"}
 =============================================================================
